@@ -71,6 +71,7 @@ class Prog:
         idx = {nm: i for i, nm in enumerate(names)}
         classes = [list(self.classes[nm]) for nm in names]
         any_id = len(classes)
+        idx["ANY"] = any_id
         classes.append(list(range(n + 2)))
         passes = []
         pidx = 0
@@ -228,7 +229,7 @@ def gen_match_rule(rng, prog):
     npost = rng.choice([0, 0, 1, 1, 2])
     items = []
     for _ in range(npre):
-        items.append(Item(cls=rng.choice(names)))
+        items.append(Item(cls="ANY" if rng.random() < 0.15 else rng.choice(names)))
     ninput_mod = 0
     for k in range(nmod):
         kind = rng.random()
